@@ -247,8 +247,10 @@ def run(ctx):
         orig = dict(both_accept=0, both_reject=0, model_only_reject=0, kernel_only_reject=0, model_error=0)
         for k, p in enumerate(progs_):
             t = orig if p["kind"] == "original" else tab
-            if k in errors or any(why == "MODEL-ERROR" for why, _ in verdict[k]):
-                errors.setdefault(k, "the model cannot be evaluated on this program (see spec/VerifierT.tla)")
+            if k in errors or any(why in ("MODEL-ERROR", "MODEL-LOOP") for why, _ in verdict[k]):
+                errors.setdefault(k, "MODEL-LOOP: backward jump, outside the original model's domain (spec/VerifierT.tla)"
+                                  if any(why == "MODEL-LOOP" for why, _ in verdict[k]) else
+                                  "MODEL-ERROR: the model cannot be evaluated on this program (spec/VerifierT.tla)")
                 t["model_error"] += 1
                 cat = "model_error"
             else:
@@ -266,6 +268,7 @@ def run(ctx):
                 ko.append(k)
         tables[m] = dict(mutants=tab, unmutated_corpus=orig, imprecision_by_model_rule=dict(by_rule.most_common()),
                          by_edit_class={c: dict(v) for c, v in sorted(by_class.items())},
+                         model_error_kinds=dict(collections.Counter(str(e)[:11] for e in errors.values())),
                          kernel_only_by_kernel_message=dict(collections.Counter(
                              kernel_class(progs_[k]["kernel"]) for k in ko
                              if progs_[k]["kernel"] is not None).most_common(40)))
